@@ -1,9 +1,7 @@
-import Driver.ExprOps
-import Driver.IntervalOps
+import Driver.All
 
 open Driver
 
-def allHandlers : List (String × Handler) := exprHandlers ++ intervalHandlers
 
 def splitArrow (toks : List String) : List String × List String :=
   (toks.takeWhile (· ≠ "=>"), (toks.dropWhile (· ≠ "=>")).drop 1)
